@@ -544,7 +544,7 @@ func (e *executor) collectFieldsImpl(objectType *schema.ObjectType, selections [
 		skip := false
 		for _, directive := range selection.SelectionDirectives() {
 			if def := e.Schema.Directives()[directive.Name.Name]; def != nil && def.FieldCollectionFilter != nil {
-				if arguments, err := coerceArgumentValues(directive, def.Arguments, directive.Arguments, e.VariableValues); err != nil {
+				if arguments, err := coerceArgumentValues(directive, def.VisibleArguments(e.Features), directive.Arguments, e.VariableValues); err != nil {
 					// The directive cannot be evaluated: report the error and leave the selection out.
 					e.Errors = append(e.Errors, err)
 					skip = true
